@@ -2,7 +2,8 @@
    Only statements, [exact], Print Assumptions and Examples live here. *)
 From Coq Require Import List NArith Arith.
 From DS Require Import Gen.Constants Base.Bytes Base.Hash Base.Sched Model.Assemble Model.Clone
-     Model.VerifyIndex Proofs.AssembleProofs Proofs.CloneProofs.
+     Model.VerifyIndex Model.Sequencer Proofs.AssembleProofs Proofs.CloneProofs Proofs.SequencerProofs
+     Proofs.AssembleSeqProofs.
 Import ListNotations.
 
 (* SAFETY.  For every index, every plan that tiles it, every initial content of the (truncated)
@@ -66,3 +67,62 @@ Example C01_example :
   let s := run (Assemble.step exH ex_idx ex_plan) ex_sched (Assemble.init ex_plan [0; 0; 3; 4; 0; 0]%N) in
   all_finished s = true /\ a_file s = ex_blob.
 Proof. vm_compute. repeat split; try reflexivity; repeat constructor. Qed.
+
+(* THE PLAN.  For every target index and every list of seeds (file seeds with any index, valid or
+   marked invalid, with or without reflinks; null seeds), the plan SeedSequencer.Plan makes
+   (model: Model/Sequencer.v, compared entry by entry with the Go code on every run)
+   - tiles the index rows: consecutive, non-empty, complete, no entry beyond the last row;
+   - every entry with a file source names a seed that is not marked invalid, and the source rows
+     are a contiguous stretch of that seed's index carrying exactly the IDs of the rows replaced;
+     a null section covers only rows with the null seed's ID and exactly their byte range;
+   - an entry without source is a single row (the worker's panic on such a segment is unreachable). *)
+Theorem C01_plan_tiles_and_matches : forall (seeds : list seedm) (idx : list ichunk),
+  tiles (length idx) 0 (segs (plan seeds idx)) /\ Forall (cand_ok seeds idx) (plan seeds idx).
+Proof. exact plan_ok_all. Qed.
+Print Assumptions C01_plan_tiles_and_matches.
+
+Theorem C01_plan_sourceless_single : forall seeds idx c,
+  In c (plan seeds idx) -> cd_src c = None -> cd_last c = cd_first c.
+Proof. exact plan_sourceless_single. Qed.
+Print Assumptions C01_plan_sourceless_single.
+
+(* AssembleFile's validate / skip-invalid-seeds loop ends after at most (usable file seeds + 1)
+   attempts whatever the validation verdicts are: every failed attempt marks a seed the plan used,
+   such a seed was usable, and a marked seed is never planned again. *)
+Theorem C01_replan_terminates : forall idx fuel seeds verdicts,
+  usable_files seeds < fuel ->
+  exists p n seeds', replan fuel seeds idx verdicts = Some (p, n) /\ n <= usable_files seeds + 1 /\
+    p = plan seeds' idx /\ length seeds' = length seeds.
+Proof. exact replan_terminates. Qed.
+Print Assumptions C01_replan_terminates.
+
+(* SAFETY END TO END (model level): the tiling premise of C01_assemble_safe is discharged by the
+   sequencer: any seeds, any validation verdicts, the plan the loop ends with, any schedule. *)
+Theorem C01_assemble_safe_seq : forall (H : bytes -> id) (idx : Assemble.index) (seeds : list seedm) (verdicts : list verdict),
+  exists p n, replan (usable_files seeds + 1) seeds (index_rows idx) verdicts = Some (p, n) /\
+    n <= usable_files seeds + 1 /\
+    forall file0 blob (sched : list event),
+      index_describes H idx blob -> length file0 = length blob ->
+      let s := run (Assemble.step H idx (segs p)) sched (Assemble.init (segs p) file0) in
+      all_finished s = true -> a_file s = blob \/ Collision H.
+Proof. exact assemble_safe_seq. Qed.
+Print Assumptions C01_assemble_safe_seq.
+
+(* Non-vacuity: target rows 1 2 3 1 2; a null seed, a seed (9 1 2 3) without reflinks, a reflink
+   seed (2 3 1 2 4).  Rows 0-2 and 3-4 come from seed 1 (ties go to the first seed); with seed 1
+   marked invalid rows 0-1 and 2-4 come from seed 2; after one failed validation of seed 1 the
+   loop ends at the second attempt with that plan; with only a null seed for id 3 and the
+   invalid seed, every row is its own entry and only row 2 has a (null) source. *)
+Definition ex_rows : list ichunk := index_rows [(1%N, 5); (2%N, 6); (3%N, 7); (1%N, 5); (2%N, 6)].
+Definition ex_seed1 (inv : bool) : seedm := SFile false inv (index_rows [(9%N, 1); (1%N, 5); (2%N, 6); (3%N, 7)]).
+Definition ex_seed2 : seedm := SFile true false (index_rows [(2%N, 6); (3%N, 7); (1%N, 5); (2%N, 6); (4%N, 1)]).
+Definition ex_show (p : list cand) : list (nat * nat * nat) :=
+  map (fun c => (cd_first c, cd_last c,
+                 match cd_src c with None => 0 | Some (FromFile k _) => 10 + k | Some (FromNull k _ _) => 20 + k end)) p.
+Example C01_plan_example :
+  ex_show (plan [SNull false 0%N; ex_seed1 false; ex_seed2] ex_rows) = [(0, 2, 11); (3, 4, 11)] /\
+  ex_show (plan [SNull false 0%N; ex_seed1 true; ex_seed2] ex_rows) = [(0, 1, 12); (2, 4, 12)] /\
+  option_map (fun pn => (ex_show (fst pn), snd pn))
+    (replan 3 [SNull false 0%N; ex_seed1 false; ex_seed2] ex_rows [[1]]) = Some ([(0, 1, 12); (2, 4, 12)], 2) /\
+  ex_show (plan [SNull false 3%N; ex_seed1 true] ex_rows) = [(0, 0, 0); (1, 1, 0); (2, 2, 20); (3, 3, 0); (4, 4, 0)].
+Proof. vm_compute. repeat split. Qed.
